@@ -156,4 +156,72 @@ def serveAdapted (a : Adapted) (s : Nat) (req : Req) : Option Result :=
   | .routes errs => some (serve [.mk 0 [] [.raise (.lit s)] false] true errs req)
   | _ => none
 
+/-! ### `handle` blocks
+
+`handle [<path>] { … }` (httpcaddyfile: parseHandle → ParseSegmentAsSubroute → buildSubroute): the
+body becomes a subroute in a route carrying the block's matcher.  `buildSubroute` makes the
+`handle` directives of ONE body mutually exclusive by giving their routes a common group name —
+only if there are at least two of them — drawn from a counter shared by the whole site; every
+call of `buildSubroute` also draws one name for its `rewrite` directives whether there are any or
+not.  Bodies are built inside out (a block is parsed when its directive is parsed), so the counter
+runs in post-order.  Group `k+1` here is the name `group<k>`; 0 is no group.
+
+Bodies are listed in the order `sortRoutes` leaves (property C16): handles with longer paths first,
+the matcher-less handle last, then `respond`; no two handles of a body have the same matcher (they
+would be consolidated into one route). -/
+
+inductive Node where
+  | handle (path : Option Nat) (body : List Node)
+  | respond (status : Nat)
+
+def Node.isHandle : Node → Bool
+  | .handle _ _ => true
+  | .respond _ => false
+
+def Route.withGroup (g : Nat) : Route → Route
+  | .mk _ sets hs term => .mk g sets hs term
+
+def setGroups (g : Nat) : List Node → List Route → List Route
+  | n :: ns, rt :: rts => (if n.isHandle then rt.withGroup g else rt) :: setGroups g ns rts
+  | _, _ => []
+
+/-- one step of `consolidateRoutes`, from the right: adjacent routes with the same matchers, the
+    same `terminal` and the same group become one route with the handlers of both, in order.  With
+    the bodies the harness writes (no two handles of a body share a matcher) only matcher-less,
+    group-less routes can meet: a lone `handle { … }` and the `respond` behind it. -/
+def consolidateStep (rt : Route) (acc : List Route) : List Route :=
+  match rt, acc with
+  | .mk 0 [] hs false, .mk 0 [] hs' false :: rest => .mk 0 [] (hs ++ hs') false :: rest
+  | _, _ => rt :: acc
+
+def consolidate (rs : List Route) : List Route := rs.foldr consolidateStep []
+
+/-- the group bookkeeping of one `buildSubroute` call: counter before → (group of the handles, counter after) -/
+def drawGroups (nHandles c : Nat) : Nat × Nat :=
+  if nHandles > 1 then (c + 1, c + 2) else (0, c + 1)
+
+mutual
+/-- one directive: its route (group still unset) and the counter afterwards -/
+def adaptNode : Node → Nat → Route × Nat
+  | .respond st, c => (.mk 0 [] [.answer (.lit st)] false, c)
+  | .handle p body, c =>
+    match adaptNodes body c with
+    | (rs, c1) =>
+      (.mk 0 (match p with | some q => [[.atom .path [q]]] | none => [])
+          [.sub (consolidate (setGroups (drawGroups (body.filter Node.isHandle).length c1).1 body rs)) false []] false,
+        (drawGroups (body.filter Node.isHandle).length c1).2)
+def adaptNodes : List Node → Nat → List Route × Nat
+  | [], c => ([], c)
+  | n :: ns, c =>
+    match adaptNode n c with
+    | (rt, c1) =>
+      match adaptNodes ns c1 with
+      | (rts, c2) => (rt :: rts, c2)
+end
+
+/-- the routes of a site whose body is `nodes` -/
+def adaptSite (nodes : List Node) : List Route :=
+  match adaptNodes nodes 0 with
+  | (rs, c1) => consolidate (setGroups (drawGroups (nodes.filter Node.isHandle).length c1).1 nodes rs)
+
 end CaddyModel.C05
